@@ -144,6 +144,7 @@ def unit_sets(tier):
         from .c06 import A6
         yield "tree(A6,3)", list(B.tree(A6, 3, max_need=3)), cfgs[:1]
         yield "hand", hand_blocks(), cfgs[:2]
+        yield "vocabulary-family", families.vocabulary_family(), cfgs[:1] + cfgs[3:4]
         yield "split-rule-family", list(families.split_rule_family()), cfgs[:1] + cfgs[3:4] + cfgs[2:3]
     else:
         yield "tree(CORE,4)", list(B.tree(B.CORE, 4)), cfgs
@@ -153,6 +154,7 @@ def unit_sets(tier):
         from .c06 import A6
         yield "tree(A6,4)", list(B.tree(A6, 4, max_need=3)), cfgs[:2]
         yield "hand", hand_blocks(), cfgs
+        yield "vocabulary-family", families.vocabulary_family(), cfgs
         yield "split-rule-family", list(families.split_rule_family()), cfgs
 
 
